@@ -67,6 +67,9 @@ pub enum Origin {
 pub enum Op {
     New { dst: usize },
     FromVec { dst: usize, vals: Vec<MVal> },
+    /// like `FromVec`, but the list is created and filled by script calls (`List.new()`, `push`):
+    /// a script-created list carries the script's own clone/drop/eq functions
+    FromVecScript { dst: usize, vals: Vec<MVal> },
     /// script literal `[a, b, c]`
     Lit3 { dst: usize, vals: Vec<MVal> },
     /// script `if c { [a, b] } else { [b, a] }` (shape 0) or `if c { let t = [a, b]; return t; } [b, a]`
@@ -181,7 +184,7 @@ impl SeqModel {
                 self.slots[*dst] = Some(id);
                 Obs::Unit
             }
-            Op::FromVec { dst, vals } | Op::Lit3 { dst, vals } => {
+            Op::FromVec { dst, vals } | Op::FromVecScript { dst, vals } | Op::Lit3 { dst, vals } => {
                 let id = self.heap.new_list(vals.clone());
                 self.slots[*dst] = Some(id);
                 Obs::Unit
